@@ -2,8 +2,8 @@
 HOOK_COMMITS = ["400b3e9"]
 ENGINES = [
     dict(name="driver", path="vf/driver.py", serves_properties=[], kind_free_text="builds targets against /repo's current tree, runs shards on 16 cores, merges reports, known-findings logic, evidence writer"),
-    dict(name="corpus+slots", path="vf/gen.py harness/engine.hpp harness/corpus_main.hpp model/peg_model.hpp", serves_properties=["C01", "C02", "C04", "C05", "C08", "C09"], kind_free_text="generate-compile-run grammar corpus and slot shapes, observer control with match() wrapper, reference PEG model, rapidcheck scripts"),
-    dict(name="zoo", path="targets/c02_zoo.cpp", serves_properties=["C02"], kind_free_text="rule zoo: every hand-written match() rule in rewinding contexts on exhaustive short inputs, invariants from the observer control"),
+    dict(name="corpus+slots", path="vf/gen.py harness/engine.hpp harness/corpus_main.hpp model/peg_model.hpp", serves_properties=["C01", "C02", "C04", "C05", "C06", "C08", "C09"], kind_free_text="generate-compile-run grammar corpus and slot shapes, observer control with match() wrapper, reference PEG model, rapidcheck scripts"),
+    dict(name="zoo", path="targets/c02_zoo.cpp", serves_properties=["C02", "C06"], kind_free_text="rule zoo: every hand-written match() rule in rewinding contexts on exhaustive short inputs, invariants from the observer control"),
     dict(name="enumerators+rapidcheck", path="targets/", serves_properties=["C17"], kind_free_text="total enumeration of finite spaces plus rapidcheck generators, explicit independent oracles"),
 ]
 NOTES = "All checks: ./check <id> --tier quick|thorough [--replay FILE]; seeds from VERIF_SEED; budgets are case counts."
@@ -33,6 +33,12 @@ CLAIMS = {
         technique="generated grammars with must/raise/try_catch rules, raising slots and throwing scripted actions; exception identity/position/what() compared with the reference model's first global failure",
         text="Exploration: the model computes the first global failure in PEG evaluation order (blamed rule, message incl. custom error_message / raise_message, nestedness, lower bound of the position, serial number of foreign exceptions) and the conversions performed by all eight try_catch rules; the implementation's exception at the parse() call site must agree, its byte must lie in [start of blamed attempt, end], line/column must be the ones of that byte and what() must equal source:line:column: message. One open finding (lazy tracking inside rematch) is reported as KNOWN-FINDING.",
         design_ref="DESIGN.md section 2 C05",
+        note=CORPUS_NOTE),
+    "C06": dict(
+        engine="corpus+slots+zoo",
+        technique="position oracle (pure function of the consumed prefix) evaluated at every hook, rule exit, action input and raise over generated grammars x 5 eol policies x eager/lazy x initial counters, and over the rule zoo; exhaustive short inputs",
+        text="Exploration: the reported byte/line/column is compared with the formula of the property at every observation point of every run (millions of observations), for grammars whose atoms are chosen around the 'can consume an eol character' compile-time decision, all five policies, both tracking modes, default and non-default initial counters. Two genuine defects are recorded as open findings (cr_crlf eager column after CR LF; lazy tracking inside rematch).",
+        design_ref="DESIGN.md section 2 C06",
         note=CORPUS_NOTE),
     "C08": dict(
         engine="corpus+slots",
